@@ -40,13 +40,78 @@ def realize(spec):
     if 'json' in spec:
         return spec['json']
     r = random.Random(spec['seed'])
+    shift = spec.get('shift', 0)
     if spec['kind'] == 'npy':
         if r.random() < 0.12:
             import numpy as np
             # object arrays (ragged lists, strings mixed with None) are NumpyArrayCache values too (it loads with allow_pickle)
             return np.array([r.choice([None, 'a', 1, 2.5, [1, 2], 'long string ' * r.randint(1, 3)]) for _ in range(r.randint(0, 5))] + [None], dtype=object)
-        return V.gen_array(r, big=r.random() < 0.1)
-    return V.gen_frame(r, big=r.random() < 0.1)
+        a = V.gen_array(r, big=r.random() < 0.1)
+        if shift:
+            # another value of the same dtype and shape (serialises to the same number of bytes)
+            import numpy as np
+            with np.errstate(all='ignore'):
+                if a.dtype.kind in 'iuf':
+                    a = np.asarray(a + shift).astype(a.dtype).reshape(a.shape)
+                elif a.dtype.kind == 'b':
+                    a = np.asarray(~a).astype(a.dtype).reshape(a.shape)
+                elif a.ndim >= 1:
+                    a = a[::-1].copy()
+        return a
+    df = V.gen_frame(r, big=r.random() < 0.1)
+    if shift:
+        import pandas as pd
+        for c in list(df.columns):
+            try:
+                if pd.api.types.is_numeric_dtype(df[c].dtype) and not pd.api.types.is_bool_dtype(df[c].dtype):
+                    df[c] = (df[c] + shift).astype(df[c].dtype)
+            except Exception:
+                pass
+    return df
+
+
+def _samelen_json(v):
+    """another JSON value that serialises to the same number of bytes, or None"""
+    if isinstance(v, bool) or v is None:
+        return None
+    if isinstance(v, str) and v.isascii() and len(v) >= 2 and v[::-1] != v:
+        return v[::-1]
+    if isinstance(v, int) and abs(v) >= 10:
+        return v + 1 if v % 10 != 9 else v - 1
+    if isinstance(v, list):
+        for i, x in enumerate(v):
+            y = _samelen_json(x)
+            if y is not None:
+                return v[:i] + [y] + v[i + 1:]
+    if isinstance(v, dict):
+        for k_, x in v.items():
+            y = _samelen_json(x)
+            if y is not None:
+                return {**v, k_: y}
+    return None
+
+
+def _retype_json(v):
+    """an ==-equal JSON value with other element types (1 -> 1.0, True -> 1, 2.0 -> 2, 0.0 -> -0.0), or None"""
+    if isinstance(v, bool):
+        return int(v)
+    if isinstance(v, int) and abs(v) < 2**52:
+        return float(v)
+    if isinstance(v, float) and v == 0.0:
+        return -v
+    if isinstance(v, float) and v.is_integer() and abs(v) < 2**52:
+        return int(v)
+    if isinstance(v, list):
+        for i, x in enumerate(v):
+            y = _retype_json(x)
+            if y is not None:
+                return v[:i] + [y] + v[i + 1:]
+    if isinstance(v, dict):
+        for k_, x in v.items():
+            y = _retype_json(x)
+            if y is not None:
+                return {**v, k_: y}
+    return None
 
 
 def canon(ctype, v):
@@ -104,13 +169,32 @@ class CacheEngine(Engine):
         if r.random() < 0.3:
             paths.append([r.choice(SUBS), r.choice(SUBS)])
         ops = []
+        last = {}
         for _ in range(r.randint(3, 14)):
             t = r.random()
             path = r.choice(paths)
             key = r.choice(keys)
             if t < 0.45:
                 ops.append({'op': 'goc', 'path': path, 'key': key, 'val': _values_for(ctype, r), 'raise': r.random() < 0.15, 'force': r.random() < 0.2})
-                if ctype != 'mem' and r.random() < 0.2:
+                lk = (tuple(path), key)
+                prev = last.get(lk)
+                u = r.random()
+                if prev is not None and u < 0.3:
+                    # the value is recomputed and comes out ==-equal with other element types, or as another value of the very same serialised size
+                    var = None
+                    if 'json' in prev:
+                        var = (_retype_json if u < 0.15 else _samelen_json)(prev['json'])
+                        var = None if var is None else {'json': var}
+                    elif not prev.get('shift'):
+                        var = dict(prev, shift=r.randint(1, 5))
+                    if var is not None:
+                        ops[-1].update(val=var, force=True, **{'raise': False})
+                if ctype != 'mem' and r.random() < 0.15 and not ops[-1]['raise'] and not (ctype == 'json_nonone' and ops[-1]['val'].get('json', 0) is None):
+                    # the calling process is killed while it writes the entry: after `limit` bytes of the file (a real kill: RLIMIT_FSIZE in a forked caller)
+                    ops[-1].update(op='goc_kill', limit=r.choice([0, 1, 9, 20, 33, 64, 100, 128, 150, 400, 5000]))
+                if not ops[-1]['raise']:
+                    last[lk] = ops[-1]['val']
+                if ctype != 'mem' and r.random() < 0.2 and ops[-1]['op'] == 'goc':
                     ops[-1]['scribble'] = True      # the caller changes the returned object in place: the stored value is not the caller's object
             elif t < 0.65:
                 ops.append({'op': 'get', 'path': path, 'key': key})
@@ -268,6 +352,8 @@ class CacheEngine(Engine):
                     except Exception as e:
                         o['exc'] = [type(e).__name__, str(e)[:120]]
                     o['calls'] = len(calls)
+                elif op['op'] == 'goc_kill':
+                    o.update(_forked_goc(nav(op['path']), op, ctype))
                 elif op['op'] == 'get':
                     try:
                         v = nav(op['path']).get(op['key'])
@@ -430,7 +516,9 @@ class CacheEngine(Engine):
                     if o.get('done'):
                         src = model.get((tuple(op['src_path']), op['src_key']))
                         fired['misdirected_file'] = fired.get('misdirected_file', 0) + 1
-                        if src and src[0] == 'ok':
+                        if src and src[0] in ('maybe', 'unknown'):
+                            model[k] = ('unknown',)
+                        elif src and src[0] == 'ok':
                             model[k] = ('foreign', op['src_key']) if op['src_key'] != op['key'] else src
                         elif src and src[0] == 'foreign':
                             model[k] = src if src[1] != op['key'] else ('damaged',)   # value unknown to the model: treat as damaged-or-any
@@ -456,6 +544,16 @@ class CacheEngine(Engine):
                         model[k] = ('damaged',)
                 continue
             if op['op'] == 'get':
+                if ent is not None and ent[0] == 'maybe':
+                    # the writer of this entry was killed while writing it: nothing, the earlier value or the killed writer's value - never anything else
+                    if o.get('ret') == NOVAL:
+                        pass
+                    elif 'ret' in o and o['ret'] in ent[1]:
+                        model[k] = ('ok', o['ret'])
+                        stats['hits'] += 1
+                    else:
+                        d('I-get', i, 'get returned a value that neither the earlier complete write nor the interrupted write stored', got=o.get('ret'), exc=o.get('exc'), candidates=ent[1])
+                    continue
                 if ent is None or ent[0] == 'damaged':
                     if o.get('ret') != NOVAL:
                         d('I-get', i, 'get returned something for a missing or damaged entry', got=o.get('ret'), exc=o.get('exc'), entry=str(ent))
@@ -474,6 +572,31 @@ class CacheEngine(Engine):
                 continue
             # get_or_compute
             newv = canon(ctype, realize(op['val']))
+            if 'killed' in o:
+                fired['writer_killed'] = fired.get('writer_killed', 0) + 1
+                stats['writer_killed'] = stats.get('writer_killed', 0) + 1
+                if ent is not None and ent[0] in ('unknown', 'foreign'):
+                    model[k] = ('unknown',)
+                else:
+                    alts = [newv]
+                    if ent is not None and ent[0] == 'ok':
+                        alts.append(ent[1])
+                        if ent[1] != newv:
+                            stats['killed_over_existing'] = stats.get('killed_over_existing', 0) + 1
+                    elif ent is not None and ent[0] == 'maybe':
+                        alts += ent[1]
+                    model[k] = ('maybe', alts)
+                continue
+            if ent is not None and ent[0] == 'maybe':
+                if o.get('calls') == 0:
+                    if 'ret' in o and o['ret'] in ent[1] and not op['force']:
+                        model[k] = ('ok', o['ret'])
+                        stats['hits'] += 1
+                    else:
+                        d('I-hit', i, 'a value that neither the earlier complete write nor the interrupted write stored was served without computing',
+                          got=o.get('ret'), exc=o.get('exc'), candidates=ent[1], force=op['force'])
+                    continue
+                ent = ('damaged',)     # it computed: judged like a call that found the entry damaged
             none_rejected = ctype == 'json_nonone' and realize(op['val']) is None
             hit = ent is not None and ent[0] == 'ok' and not op['force']
             if op['force']:
@@ -620,6 +743,48 @@ class CacheEngine(Engine):
                     c = copy.deepcopy(scn)
                     c['ops'][i]['val'] = {'json': 1}
                     yield c
+
+
+def _forked_goc(cache, op, ctype):
+    """get_or_compute in a forked caller that the kernel kills (SIGXFSZ) as soon as it writes past `limit` bytes of a file"""
+    import resource
+    import signal
+    rfd, wfd = os.pipe()
+    pid = os.fork()
+    if pid == 0:
+        try:
+            os.close(rfd)
+            signal.signal(signal.SIGXFSZ, signal.SIG_DFL)
+            resource.setrlimit(resource.RLIMIT_FSIZE, (op['limit'], op['limit']))
+            calls = []
+
+            def computer():
+                calls.append(1)
+                return copy.deepcopy(realize(op['val']))
+            out = {}
+            try:
+                v = cache.get_or_compute(op['key'], computer, force=op['force'])
+                out['ret'] = canon(ctype, v)
+            except Exception as e:
+                out['exc'] = [type(e).__name__, str(e)[:120]]
+            out['calls'] = len(calls)
+            os.write(wfd, json.dumps(out).encode())
+        finally:
+            os._exit(0)
+    os.close(wfd)
+    buf = b''
+    while True:
+        b = os.read(rfd, 1 << 16)
+        if not b:
+            break
+        buf += b
+    os.close(rfd)
+    _, status = os.waitpid(pid, 0)
+    if os.WIFSIGNALED(status):
+        return {'killed': os.WTERMSIG(status)}
+    if not buf:
+        return {'harness_exc': ['ForkedCaller', f'no answer, status {status}']}
+    return json.loads(buf)
 
 
 def _scribble(v):
